@@ -90,6 +90,11 @@ func TimeVal(t *rapid.T, zones bool) model.TimeV {
 		u += int64(rapid.IntRange(-3, 3).Draw(t, "dt"))
 	}
 	tv := model.TimeV{Unix: u, Zone: "Local"}
+	if !zones && rapid.Bool().Draw(t, "utcrepr") {
+		// the same instants, held as UTC instead of Local (with TZ=UTC the two read and render
+		// alike, but they are different Go representations of a time)
+		tv.Zone = ""
+	}
 	if zones {
 		z := pick(t, "zone", Zones)
 		tv.Zone, tv.Off = z.Zone, z.Off
